@@ -15,7 +15,7 @@ HEADER = """From Coq Require Import ZArith List Bool.
 From OQ Require Import Lib.RingSum Model.PTFile Model.Glue.
 Import ListNotations. Open Scope Z_scope."""
 
-NAMES = [None, "pt", "a name", "x" * 30]
+NAMES = [None, "pt", "a name", "x" * 30, " padded name ", "two lines\nsecond line\n", "\u00fcn\u00efc\u00f6d\u00e9 \u00b5\u2192\u03c1", "\ttab"]
 
 
 # ---------------------------------------------------------------- flat printers (python side)
